@@ -164,6 +164,17 @@ def make_context(sc, rep='f64', condition='clean', masked_array_mask=False,
     t['flux'] = [s[2] * 10.0 for s in stars] * (X.U if rep == 'quantity' else 1)
     t.meta['note'] = 'init'
     X.init = t
+    # the same initial guesses under the canonical *_init column names
+    t2 = QTable()
+    t2['x_init'] = [s[0] + 0.2 for s in stars]
+    t2['y_init'] = [s[1] - 0.3 for s in stars]
+    t2['flux_init'] = [s[2] * 10.0 for s in stars] * (X.U if rep == 'quantity' else 1)
+    X.init_canonical = t2
+    # effective-gain map with exact zeros (pixels without Poisson noise)
+    gain = np.full((ny, nx), 2.0)
+    gain[rng.integers(0, ny, 5), rng.integers(0, nx, 5)] = 0.0
+    gain[0, 0] = 0.0
+    X.gain = gain * (u.electron / u.Jy) if rep == 'quantity' else gain
     mt = QTable()
     mt['x_0'] = [s[0] for s in stars]
     mt['y_0'] = [s[1] for s in stars]
@@ -287,6 +298,13 @@ def _entries():
         ph.make_model_image(X.shape), ph.make_residual_image(X.d)))(
         PSFPhotometry(X.psf, (5, 5), grouper=SourceGrouper(6.0),
                       aperture_radius=4.0))
+    E['PSFPhotometry_canonical_init'] = lambda X: PSFPhotometry(
+        X.psf, (5, 5), grouper=SourceGrouper(6.0), aperture_radius=4.0)(
+        X.d, mask=X.m, error=X.e, init_params=X.init_canonical)
+    E['IterativePSFPhotometry_init'] = lambda X: IterativePSFPhotometry(
+        X.psf, (5, 5), DAOStarFinder(X.thr_q, 4.0), aperture_radius=4.0,
+        grouper=SourceGrouper(6.0), maxiters=2)(
+        X.d, mask=X.m, error=X.e, init_params=X.init_canonical)
     E['IterativePSFPhotometry'] = lambda X: IterativePSFPhotometry(
         X.psf, (5, 5), DAOStarFinder(X.thr_q, 4.0), aperture_radius=4.0,
         maxiters=2)(X.d, mask=X.m, error=X.e)
@@ -294,6 +312,8 @@ def _entries():
         X.shape, X.psf, X.model_table, model_shape=(9, 9))
     E['calc_total_error'] = lambda X: calc_total_error(
         X.d, X.e, 2.0 * (u.electron / u.Jy if X.unit is not None else 1))
+    E['calc_total_error_gain_map'] = lambda X: calc_total_error(
+        X.d, X.e, X.gain)
     def _ellipse(X):
         from photutils.isophote import (Ellipse, EllipseGeometry,
                                         build_ellipse_model)
